@@ -27,10 +27,18 @@ def _events(n, rng):
     geoms_ = [lambda i: data.TimeInterval(coordinates=[i, i + 0.5]), lambda i: None, lambda i: data.Point(coordinates=[i, 1000.0]),
               lambda i: data.TimeInterval(coordinates=[i, i + 0.5]), lambda i: data.BoundingBox(coordinates=[i, 10.0, i + 1.0, 20.0])]
     # a sound event may legally have no geometry: it is still an input event
-    return [
+    out = [
         data.SoundEvent(uuid=uuid.UUID(int=rng.getrandbits(128)), recording=rng.choice(recs), geometry=rng.choice(geoms_)(i if rng.random() < 0.8 else 0), features=rng.choice(feats))
         for i in range(n)
     ]
+    if n >= 2 and rng.random() < 0.3:
+        # the list may hold the same event more than once (a detection listed twice, an equal copy from another
+        # file): positions are what is partitioned.  Equal copies (same uuid, equal content, distinct objects) are used,
+        # so that the callback log can still tell positions apart.
+        for _ in range(rng.choice([1, 1, 2])):
+            i, j = rng.sample(range(n), 2)
+            out[j] = out[i].model_copy()
+    return out
 
 
 def _components(n, edges):
